@@ -35,7 +35,7 @@ def family_lookalike(rng):
 
 
 def gen_case(rng, ctx):
-    cls, ds = gen.dataset(rng, classes="D1 D2 D2 D3 D3 D4 D5 D6 D7 D8", nmax=9, mmax=7)
+    cls, ds = gen.dataset(rng, classes="D1 D2 D2 D3 D3 D4 D5 D6 D7 D8 D22 D22 D17", nmax=9, mmax=7)
     ds = libx.normalise_raw(ds)
     which = rng.random()
     if which < 0.55:
